@@ -1,5 +1,6 @@
 import Proofs.Lemmas.ContainerAccess
 import Proofs.Lemmas.ContainerIndex
+import Proofs.C09
 /-
 C10 — Label-based access addresses exactly the labelled periods.
 
@@ -124,6 +125,33 @@ theorem locate_lt {s : Store} (hk : s.spanKind ≠ .pandas) {k p : Nat} (h : loc
 example : locate (init [0, 1, 2] .seq false) 1 = .pos 1 ∧ locate (init [0, 1, 2] .seq false) 7 = .missing ∧
     locate (init [0, 1, 1] .numpy false) 1 = .missing ∧ locate (init [0, 1, 1] .numpy false) 0 = .pos 0 := by
   decide
+
+/-- **What a label access addresses is a function of the span alone** (its labels, its kind, pandas' answers): two
+    stores with the same span resolve every label and every label slice identically — there is no memory of
+    earlier accesses, and data, attributes and strictness play no part. -/
+theorem access_depends_only_on_span {s s' : Store} (h1 : s'.span = s.span) (h2 : s'.spanKind = s.spanKind)
+    (h3 : s'.getLoc = s.getLoc) :
+    (∀ k, locate s' k = locate s k) ∧
+    (∀ a b st, resolveSlice s' a b st = resolveSlice s a b st) ∧
+    (∀ a b st, labelSlicePositions s' a b st = labelSlicePositions s a b st) := by
+  have hloc : ∀ k, locate s' k = locate s k := by
+    intro k; unfold locate; rw [h1, h2, h3]
+  have hres : ∀ a b st, resolveSlice s' a b st = resolveSlice s a b st := by
+    intro a b st; unfold resolveSlice; simp only [hloc, h1]
+  refine ⟨hloc, hres, ?_⟩
+  intro a b st
+  unfold labelSlicePositions
+  rw [hres]
+  simp only [Store.n, h1]
+
+/-- … in particular no operation of the alphabet changes what a later access addresses (the span is never
+    touched: `C09.step_ext`), for every history. -/
+theorem access_unchanged_by_history (s : Store) (ops : List Op) :
+    (∀ k, locate (run cfg s ops) k = locate s k) ∧
+    (∀ a b st, labelSlicePositions (run cfg s ops) a b st = labelSlicePositions s a b st) := by
+  have h := C09.run_ext (cfg := cfg) s ops
+  have := access_depends_only_on_span h.span h.spanKind h.getLoc
+  exact ⟨this.1, this.2.2⟩
 
 /-! ## Reading and writing one label -/
 
